@@ -106,6 +106,7 @@ type StressObs struct {
 }
 
 type Job struct {
+	Lib    *LibSpec    `json:"lib,omitempty"`
 	Stress *StressSpec `json:"stress,omitempty"`
 	ID     int         `json:"id"`
 	Share  *ShareSpec  `json:"share,omitempty"`
@@ -130,6 +131,7 @@ type Result struct {
 	Log    []Event    `json:"log,omitempty"`
 	Iso    *IsoObs    `json:"iso,omitempty"`
 	Stress *StressObs `json:"stress,omitempty"`
+	Lib    *LibObs    `json:"lib,omitempty"`
 	Errs   []string   `json:"errs,omitempty"`
 }
 
@@ -164,6 +166,8 @@ func childMain(path string) {
 			r = runShare(j.Share)
 		case "stress":
 			r = runStress(j.Stress)
+		case "lib":
+			r = runLib(j.Lib)
 		default:
 			r = Result{Status: "error", Msg: "unknown job kind"}
 		}
